@@ -858,6 +858,49 @@ fn gen_c08_directed(out: &mut Out, rng: &mut Rng, n: usize) {
     }
 }
 
+/// save segments in which exactly ONE thing changes (so nothing else can make the writer rewrite
+/// what that change alone requires): a code page change, one insert, an update to "", a delete,
+/// a stream, a summary field, a table created or dropped; Latin-1 text under pages that encode it
+/// differently; every way of closing
+fn gen_c01_directed(out: &mut Out, rng: &mut Rng, n: usize) {
+    let t = hex_of_str("T");
+    let k = hex_of_str("K");
+    let sc = hex_of_str("S");
+    let pages = ["Utf8", "Windows1252", "Iso88591"];
+    for case in 0..n {
+        out.req("new", format!("new {}", rng.below(3)));
+        let p0 = pages[case % 3];
+        out.req("set_db_cp", format!("set_db_cp {p0}"));
+        out.req("create_table", format!("create_table {t} {k}:i16:K:-:-:-:- {sc}:s32:N:-:-:-:-"));
+        out.req("insert", format!("insert {t} 3 2 I1 S{} 2 I2 S{} 2 I3 S{}", hex_of_str("caf\u{e9}"), hex_of_str("x"), hex_of_str("caf\u{e9}")));
+        out.req("snapshot", "snapshot".into());
+        out.req("reopen", format!("reopen {}", rng.pick(&crate::hist::CLOSE_MODES)));
+        out.req("snapshot", "snapshot".into());
+        let segments = 2 + rng.below(3);
+        for _ in 0..segments {
+            match rng.below(9) {
+                0 | 1 => {
+                    let p1 = pages[rng.below(3) as usize];
+                    out.req("set_db_cp", format!("set_db_cp {p1}"));
+                }
+                2 => out.req("insert", format!("insert {t} 1 2 I{} S{}", 10 + rng.below(50), hex_of_str(*rng.pick(&["x", "caf\u{e9}", "new text"])))),
+                3 => out.req("update", format!("update {t} 1 {sc} S_ eq C{k} I{}", 1 + rng.below(3))),
+                4 => out.req("update", format!("update {t} 1 {sc} S{} eq C{k} I{}", hex_of_str(*rng.pick(&["x", "\u{e9}t\u{e9}"])), 1 + rng.below(3))),
+                5 => out.req("delete", format!("delete {t} eq C{k} I{}", 1 + rng.below(3))),
+                6 => out.req("stream_write", format!("stream_write {} 01020304", hex_of_str("bin"))),
+                7 => out.req("sum_set", format!("sum_set subject {}", hex_of_str("caf\u{e9}"))),
+                _ => out.req("create_table", format!("create_table {} {k}:i16:K:-:-:-:-", hex_of_str(*rng.pick(&["U", "V"])))),
+            }
+            out.req("snapshot", "snapshot".into());
+            out.req("reopen", format!("reopen {}", rng.pick(&crate::hist::CLOSE_MODES)));
+            out.req("snapshot", "snapshot".into());
+            if rng.chance(1, 3) {
+                out.req("raw", "raw".into());
+            }
+        }
+    }
+}
+
 fn gen_hist_prop(prop: &str, out: &mut Out, rng: &mut Rng, thorough: bool) {
     use crate::hist::*;
     let mut cfg = HistCfg {
@@ -875,6 +918,9 @@ fn gen_hist_prop(prop: &str, out: &mut Out, rng: &mut Rng, thorough: bool) {
         }
         "C04" => {
             cfg.raw = false;
+        }
+        "C01" => {
+            gen_c01_directed(out, rng, if thorough { 1500 } else { 90 });
         }
         "C08" => {
             cfg.summary = false;
